@@ -273,6 +273,42 @@ Result runAL(const Case& cs) {
                     nm + ": iterator ordering / negative distance wrong");
         }
       }
+      // round four: the remaining operators of RandomAccessIteratorFacade (iteratorfacades.hh) on both iterator
+      // classes: it++ / it-- (value returned and new position), -=, it+n, it-n, it[n] with negative n, ->,
+      // < <= > >= (also mixed const / non-const), against positions in the shadow
+      {
+        const long n = (long)q.sh.size();
+        auto facade = [&](auto b, auto e, const std::string& who) {
+          out.check(b <= e && e >= b && !(e < b) && (n == 0) == !(b < e) && (n == 0) == !(e > b) && (n == 0) == (e <= b) && (n == 0) == (b >= e)
+                    && b <= b && b >= b && !(b < b) && !(b > b),
+                    nm + ": " + who + " ordering operators wrong on begin()/end()");
+          if (n == 0) return;
+          const long k = (long)((q.erased + out.executed) % n);       // a position that moves with the history
+          auto it = b + k;
+          out.check(it - b == k && e - it == n - k && *it == q.sh[k] && *(it.operator->()) == q.sh[k], nm + ": " + who + " begin()+k / -> wrong");
+          auto old = it++;
+          out.check(old - b == k && it - b == k + 1 && *old == q.sh[k], nm + ": " + who + " it++ wrong");
+          out.check(old < it && old <= it && it > old && it >= old && !(it < old) && !(it <= old) && !(old > it) && !(old >= it) && old != it,
+                    nm + ": " + who + " ordering of neighbours wrong");
+          auto old2 = it--;
+          out.check(old2 - b == k + 1 && it - b == k && *it == q.sh[k] && it == old, nm + ": " + who + " it-- wrong");
+          auto back = e - (n - k);
+          out.check(back == it && back - b == k && *back == q.sh[k], nm + ": " + who + " end()-m wrong");
+          auto m = e;
+          m -= n - k;
+          out.check(m == it && *m == q.sh[k], nm + ": " + who + " -= wrong");
+          m -= -(n - 1 - k);
+          out.check(m - b == n - 1 && *m == q.sh[n - 1] && e[-1] == q.sh[n - 1] && m[-(n - 1)] == q.sh[0] && b[k] == q.sh[k],
+                    nm + ": " + who + " -= with a negative count / it[-j] wrong");
+          m += -(n - 1);
+          out.check(m == b && (m + n) == e && (e + (-n)) == b, nm + ": " + who + " += / + with a negative count wrong");
+        };
+        facade(l.begin(), l.end(), "iterator");
+        facade(cl.begin(), cl.end(), "const_iterator");
+        // (mixed iterator/const_iterator ordering and distance do not compile for ArrayList: the facade's operators
+        //  instantiate both distanceTo directions and ArrayListIterator::distanceTo(ConstArrayListIterator) does not
+        //  exist; mixed == / != do and are checked above)
+      }
       if (l.size() == q.sh.size()) {
         for (std::size_t i = 0; i < l.size(); ++i) iseen.push_back(cl[i]);
         out.check(iseen.size() == q.sh.size() && std::equal(iseen.begin(), iseen.end(), q.sh.begin()), nm + ": operator[] sweep differs");
@@ -442,6 +478,25 @@ Result runSL(const Case& cs) {
                   "iterator converted from the modify iterator differs");
         if (!atEnd) out.check(*pit == **s.m && *cit == **s.m, "converted iterator denotes another element");
       }
+      // round four: ForwardIteratorFacade's it++ (returns the old position) and -> on all three iterator classes
+      if (!s.sh.empty()) {
+        auto it = s.l.begin();
+        auto old = it++;
+        out.check(old == s.l.begin() && *old == s.sh.front() && *(old.operator->()) == s.sh.front() && old != it
+                  && (s.sh.size() == 1 ? it == s.l.end() : (it != s.l.end() && *it == *std::next(s.sh.begin()))),
+                  "iterator it++ / -> wrong");
+        auto cit = cl.begin();
+        auto cold = cit++;
+        out.check(cold == cl.begin() && *cold == s.sh.front() && *(cold.operator->()) == s.sh.front() && cold != cit
+                  && (s.sh.size() == 1 ? cit == cl.end() : (cit != cl.end() && *cit == *std::next(s.sh.begin()))),
+                  "const_iterator it++ / -> wrong");
+        SLL scratch(s.l);                      // modify iterator on a copy (the copy is destroyed again: allocator count unchanged)
+        auto mit = scratch.beginModify();
+        auto mold = mit++;
+        out.check(*mold == s.sh.front() && *(mold.operator->()) == s.sh.front() && mold != mit
+                  && (s.sh.size() == 1 ? mit == scratch.endModify() : (mit != scratch.endModify() && *mit == *std::next(s.sh.begin()))),
+                  "modify iterator it++ / -> wrong");
+      }
       {
         SLL::const_iterator cb = s.l.begin();  // conversion iterator -> const_iterator
         out.check(cb == cl.begin() && s.l.begin().equals(cb), "begin() converted to const_iterator differs from const begin()");
@@ -524,9 +579,15 @@ Result runRV(const Case& cs) {
         ok = true;
         long i = std::stol(w[1]);
         const RV& cv = s.v;
-        try { res = std::to_string(s.v.at(i)); out.check(cv.at(i) == s.v.at(i), "const at differs"); }
+        try { res = std::to_string(s.v.at(i)); }
         catch (std::out_of_range&) { res = "ERR:Range"; }
+        // the const overload has its own range check: it is called (and judged) independently of the mutable one
+        std::string cres;
+        try { cres = std::to_string(cv.at(i)); }
+        catch (std::out_of_range&) { cres = "ERR:Range"; }
         out.check((res == "ERR:Range") == (i >= (long)s.sh.size()), "at(" + w[1] + ") range check wrong");
+        out.check((cres == "ERR:Range") == (i >= (long)s.sh.size()), "const at(" + w[1] + ") range check wrong");
+        if (i < (long)s.sh.size()) out.check(cres == res, "const at differs");
         if (i < (long)s.sh.size() && s.sh[i]) out.check(res == std::to_string(*s.sh[i]), "at gives " + res);
         stat(res == "ERR:Range" ? "rv_at_err" : "rv_at");
       } else if (op == "fill" && w.size() == 2 && isInt(w[1])) {
